@@ -292,6 +292,30 @@ Proof.
   unfold c12_atomic. cbn [wc_tx wc_log]. now rewrite H0, H3, H4.
 Qed.
 
+(* the same with a context that is cancelled during the export (ToSQLTxContext): whatever the position of the
+   cancellation and of a failure, the library neither commits nor rolls back the caller's transaction *)
+Theorem tosqltx_cancel_never_finishes o t f st fault cancel trace st' ok :
+  tosql_tx_c o t f st fault cancel = (trace, st', ok) ->
+  count_kind 0 trace = 0%nat /\ count_kind 3 trace = 0%nat /\ count_kind 4 trace = 0%nat.
+Proof.
+  unfold tosql_tx_c. intros H.
+  destruct (tx_body o t f st 1 fault cancel) as [[[calls st1] ok1] n] eqn:Eb.
+  injection H as <- <- <-. apply tx_body_inv in Eb. destruct Eb as [Hb _].
+  apply Forall_rev in Hb. repeat split; apply body_no_kind; auto; discriminate.
+Qed.
+Theorem tosql_tx_c_zero o t f st fault : tosql_tx_c o t f st fault 0 = tosql_tx o t f st fault.
+Proof. reflexivity. Qed.
+Theorem c12_atomic_model_tx_cancel o t f st fault cancel :
+  let '(trace, st', ok) := tosql_tx_c o t f st fault cancel in
+  c12_atomic {| wc_opts := o; wc_table := t; wc_frame := f; wc_store := st;
+                wc_fault := fault; wc_cancel := cancel; wc_tx := true;
+                wc_ok := ok; wc_log := trace; wc_final := st' |} = true.
+Proof.
+  destruct (tosql_tx_c o t f st fault cancel) as [[trace st'] ok] eqn:E.
+  apply tosqltx_cancel_never_finishes in E. destruct E as (H0 & H3 & H4).
+  unfold c12_atomic. cbn [wc_tx wc_log]. now rewrite H0, H3, H4.
+Qed.
+
 (* concrete runs: a frame of two rows into an empty store, every fault position *)
 Definition ex_opts : wopts :=
   {| w_has := true; w_ifexists := []; w_dialect := [112; 113]%N (* "pq" *); w_batch := 1; w_typemap := None |}.
